@@ -119,3 +119,9 @@ func specRel(opts []layers.TCPOption, a int, o int, isn uint32) uint32 {
 //@ ensures[C05.rtt]         ret0 != nil ==> ret0.RTT >= 0 && ret0.RTT == now() - s.sendTimes[ret0.TTL]
 //@ ensures[C01.fresh]       ret0 != nil ==> fresh(ret0)
 //@ modifies ghost clock
+
+//@ func RunSackTraceroute
+//@ trusted pending: entry point not yet verified against this contract (C10 work item)
+//@ ensures[C10.entry.atom]  ret1 != nil ==> ret0 == nil
+//@ ensures[C03.entry.hops]  ret1 == nil ==> ret0 != nil && forall(i, 0, len(ret0.Hops), ret0.Hops[i] != nil)
+//@ modifies *
